@@ -6,7 +6,7 @@ scope = {"name", "kind": module|program|subroutine|ifbody|absbody, "uses": [{"ta
          "procs": [scope], "ifbodies": [scope], "absints": [scope], "private": [names]}
 var   = {"name", "ref": None | {"what": "type"|"proc", "id": name}, "pointer": bool}
 dtype = {"name", "extends": None|name, "comps": [var], "binds": [{"name", "deferred", "proto", "targets"}], "finals": [names]}
-A program is {"units": [scope], "submodules": [{"name", "ancestor", "parent"}]}.
+A program is {"units": [scope], "submodules": [{"name", "ancestor", "parent", + optionally the fields of a scope}]}.
 """
 
 import re
@@ -66,6 +66,34 @@ def imports_of(units, s, memo=None):
     return res
 
 
+def sub_scope(sm):
+    """a submodule entry as a full scope (bodyless entries get empty lists)"""
+    s = new_scope(sm["name"], "submodule")
+    s.update(sm)
+    s["kind"] = "submodule"
+    return s
+
+
+def host_chain(prog, sm):
+    """the units whose dictionaries a submodule inherits, outermost first: FORD takes the parent
+    submodule when the SUBMODULE statement names one (and it is found), else the ancestor module"""
+    chain = []
+    cur = sm
+    for _ in range(10):
+        host = None
+        if cur.get("parent"):
+            host = next((sub_scope(x) for x in prog["submodules"] if x["name"].lower() == cur["parent"].lower()), None)
+        if host is None and not cur.get("parent"):
+            host = next((u for u in prog["units"] if u["kind"] == "module" and u["name"].lower() == cur["ancestor"].lower()), None)
+        if host is None:
+            break
+        chain.insert(0, host)
+        if host["kind"] != "submodule":
+            break
+        cur = host
+    return chain
+
+
 def all_scopes(s):
     yield s
     for c in s["procs"] + s["ifbodies"] + s["absints"]:
@@ -84,6 +112,10 @@ def own_names(s):
 
 
 # ----------------------------------------------------------------------------- generation
+def _new_scope_doc():
+    """see new_scope"""
+
+
 def new_scope(name, kind):
     return {"name": name, "kind": kind, "uses": [], "vars": [], "args": [], "types": [], "generics": [],
             "procs": [], "ifbodies": [], "absints": [], "private": []}
@@ -282,13 +314,20 @@ class Gen:
             units.append(u)
             self.gen_scope(units, u, [u], 0)
         subs = []
-        if rng.random() < 0.4:
+        prog = {"units": units, "submodules": subs}
+        if rng.random() < 0.45:
             mods = [x["name"] for x in units if x["kind"] == "module"]
-            anc = spell(rng, rng.choice(mods + ["nosuchmod"]))
-            subs.append({"name": "sub1", "ancestor": anc, "parent": None})
-            if rng.random() < 0.5:
-                subs.append({"name": "sub2", "ancestor": anc, "parent": spell(rng, "sub1")})
-        return {"units": units, "submodules": subs}
+            anc = spell(rng, rng.choice(mods + mods + ["nosuchmod"]))
+            s1 = new_scope("sub1", "submodule")
+            s1.update({"ancestor": anc, "parent": None})
+            subs.append(s1)
+            self.gen_scope(units, s1, host_chain(prog, s1) + [s1], 0)
+            if rng.random() < 0.6:
+                s2 = new_scope("sub2", "submodule")
+                s2.update({"ancestor": anc, "parent": spell(rng, "sub1")})
+                subs.append(s2)
+                self.gen_scope(units, s2, host_chain(prog, s2) + [s2], 0)
+        return prog
 
 
 # ----------------------------------------------------------------------------- rendering
@@ -328,8 +367,11 @@ def render_type(t, ind):
 
 def render_scope(s, ind=""):
     kw = {"module": "module", "program": "program", "subroutine": "subroutine", "ifbody": "subroutine",
-          "absbody": "subroutine", "blockdata": "block data"}[s["kind"]]
+          "absbody": "subroutine", "blockdata": "block data", "submodule": "submodule"}[s["kind"]]
     head = f"{ind}{kw} {s['name']}"
+    if kw == "submodule":
+        par = f"{s['ancestor']}:{s['parent']}" if s.get("parent") else s["ancestor"]
+        head = f"{ind}submodule ({par}) {s['name']}"
     if kw == "subroutine":
         head += "(" + ", ".join(a["name"] for a in s["args"]) + ")"
     L = [head]
@@ -371,8 +413,7 @@ def render_files(prog):
     for i, u in enumerate(prog["units"]):
         files[f"src/f{i}_{u['name'].lower()}.f90"] = "\n".join(render_scope(u)) + "\n"
     for i, sm in enumerate(prog["submodules"]):
-        par = f"{sm['ancestor']}:{sm['parent']}" if sm["parent"] else sm["ancestor"]
-        files[f"src/s{i}_{sm['name']}.f90"] = f"submodule ({par}) {sm['name']}\nend submodule {sm['name']}\n"
+        files[f"src/s{i}_{sm['name'].lower()}.f90"] = "\n".join(render_scope(sub_scope(sm))) + "\n"
     return files
 
 
@@ -404,21 +445,22 @@ def ctype(t):
                                  clist(cvar(c) for c in t["comps"]), binds, clist(cs(f.lower()) for f in t["finals"]))
 
 
-def scope_events(units, s, path):
+def scope_events(units, s, path, host=()):
     """the events of FORD's traversal of scope s (children: functions, subroutines, interface bodies,
     abstract interface bodies)"""
     path = path + [s["name"].lower()]
-    kind = {"module": "KUnit", "program": "KUnit", "blockdata": "KUnit", "subroutine": "KProc" if len(path) > 1 else "KUnit",
+    kind = {"module": "KUnit", "program": "KUnit", "blockdata": "KUnit", "submodule": "KSub",
+            "subroutine": "KProc" if len(path) > 1 else "KUnit",
             "ifbody": "KBody", "absbody": "KBody"}[s["kind"]]
     on = own_names(s)
     imps = []
     for c, pairs in imports_of(units, s).items():
         imps += [f"({c}, ({cs(n)}, {cpath(p)}))" for n, p in pairs]
-    rec = "Sr %s %s %s %s %s %s %s %s" % (
+    rec = "Sr %s %s %s %s %s %s %s %s %s" % (
         cpath(path), kind, clist(cs(n) for n in on["CProc"]), clist(cs(n) for n in on["CAbs"]),
         clist(ctype(t) for t in s["types"]),
         clist("G %s %s" % (cs(g["name"].lower()), clist(cs(x.lower()) for x in g["modprocs"])) for g in s["generics"]),
-        clist(cvar(v) for v in s["vars"] + s["args"]), clist(imps))
+        clist(cvar(v) for v in s["vars"] + s["args"]), clist(imps), cpath(list(host)))
     evs = [f"Enter ({rec})"]
     for c in s["procs"] + s["ifbodies"] + s["absints"]:
         evs += scope_events(units, c, path)
@@ -428,3 +470,13 @@ def scope_events(units, s, path):
 
 def coq_unit(units, u):
     return clist(scope_events(units, u, []))
+
+
+def coq_submodule(prog, sm):
+    """the events of the host units (outermost first), then those of the submodule"""
+    chain = host_chain(prog, sm) + [sub_scope(sm)]
+    evs = []
+    for k, u in enumerate(chain):
+        host = [chain[k - 1]["name"].lower()] if (k > 0 and u["kind"] == "submodule") else []
+        evs += scope_events(prog["units"], u, [], host)
+    return clist(evs)
